@@ -16,5 +16,6 @@ CONSTANTS
   Modes = {"entity", "cdata"}
   W <- WNull
   RootKinds = {"inst", "class", "ipath", "cpath", "prop", "pval", "qual", "qdecl", "meth", "parm"}
+  EmbPaths = FALSE
 INVARIANT ImplMeetsReq
 CHECK_DEADLOCK FALSE
